@@ -86,7 +86,27 @@ def run(ctx):
                                            "correspondence": "PV.B64filter.run vs bin/b64filter"}, no_input=True,
                                            summary=f"b64filter model/impl differ for child {name} on {docs[:3]!r}")
                     return
+    # more than two queue pages of documents with long ones at the page multiples, stdin stalling there (the collector is
+    # then fully caught up with the feeder exactly at a page boundary)
+    import wrappers
+    data, pauses = wrappers.paced_corpus("b64filter")
+    st, out, err, trace = wrappers.run_traced(ctx, ["b64filter"], data, ["eager"], timeout=120, pauses=pauses)
+    ctx.count("b64filter.paced", 1, [len(data)])
+    if st != 0 or out != data:
+        gl, wl = out.split(b"\n"), data.split(b"\n")
+        k = next((i for i, (p_, q_) in enumerate(zip(gl, wl)) if p_ != q_), min(len(gl), len(wl)))
+        pvlib.report_violation(ctx, "b64filter-paced", {
+            "argv": ["b64filter", "python3", "harness/children/child.py", "eager"], "stdin_hex": hx(data)[:400000], "stdin_stalls_at_byte_offsets": pauses,
+            "status": st, "doc_index": k, "stderr": err.decode(errors="replace")[-300:]},
+            summary=f"b64filter with an identity child on {len(wl) - 1} documents, stdin stalling around the queue-page multiples: status {st}, "
+                    f"{len(gl) - 1} lines out, first wrong document {k}")
 
 
 def replay(ctx, rp):
+    if "stdin_stalls_at_byte_offsets" in rp:
+        import wrappers
+        i = rp["argv"].index("python3")
+        st, out, err, trace = wrappers.run_traced(ctx, rp["argv"][:i], pvlib.unhx(rp["stdin_hex"]), rp["argv"][i + 2:], timeout=120, pauses=rp["stdin_stalls_at_byte_offsets"])
+        print("status", st, "stdout bytes", len(out), err[-300:])
+        return
     pvlib.generic_replay(ctx, rp)
